@@ -15,14 +15,15 @@ import (
 // FnA is the per-function analysis: value descriptors (P2), dominating-edge facts (P3),
 // cut reachability (P4), sinks.
 type FnA struct {
-	c        *Ctx
-	fn       *ssa.Function
-	desc     map[ssa.Value]string
-	stored   map[string]int // object descriptors that are stored to in this function (non-local)
-	allocSt  map[*ssa.Alloc][]*ssa.Store
-	allocFld map[*ssa.Alloc]bool // alloc has stores through a FieldAddr/IndexAddr
-	facts    map[*ssa.BasicBlock]Facts
-	busy     map[ssa.Value]bool
+	c         *Ctx
+	fn        *ssa.Function
+	desc      map[ssa.Value]string
+	stored    map[string]int // object descriptors that are stored to in this function (non-local)
+	allocSt   map[*ssa.Alloc][]*ssa.Store
+	allocFld  map[*ssa.Alloc]bool // alloc has stores through a FieldAddr/IndexAddr
+	facts     map[*ssa.BasicBlock]Facts
+	busy      map[ssa.Value]bool
+	depthLits int
 }
 
 func (c *Ctx) FA(fn *ssa.Function) *FnA {
@@ -499,7 +500,71 @@ func (a *FnA) lits(cond ssa.Value, pol bool) []Lit {
 			return []Lit{{"lt(" + a.Desc(l) + "," + a.Desc(r) + ")", p}}
 		}
 	}
-	return []Lit{{a.Desc(cond), pol}}
+	out := []Lit{{a.Desc(cond), pol}}
+	// a && b known true / a || b known false: the operands are known too
+	if phi, ok := cond.(*ssa.Phi); ok && a.depthLits < 3 {
+		a.depthLits++
+		defer func() { a.depthLits-- }()
+		allConstAre := func(want bool) bool {
+			n := 0
+			for _, e := range phi.Edges {
+				if b, ok := constBool(e); ok {
+					if b != want {
+						return false
+					}
+					n++
+				}
+			}
+			return n > 0 && n < len(phi.Edges)
+		}
+		// && : constant operands are false ; value true means every test passed
+		// || : constant operands are true  ; value false means every test failed
+		if (pol && allConstAre(false)) || (!pol && allConstAre(true)) {
+			for i, e := range phi.Edges {
+				pred := phi.Block().Preds[i]
+				if _, isConst := constBool(e); isConst {
+					// sound only if every other way into the phi passed this test the other way
+					si := succIndexOf(pred, phi.Block())
+					okDom := len(pred.Succs) == 2
+					if okDom {
+						other := pred.Succs[1-si]
+						for j, q := range phi.Block().Preds {
+							if j == i {
+								continue
+							}
+							if _, c2 := constBool(phi.Edges[j]); c2 && q != pred {
+								// another short-circuit exit: it must itself lie behind this test
+								if !(other == q || other.Dominates(q)) && !(q.Dominates(pred)) {
+									okDom = false
+								}
+								continue
+							}
+							if !(other == q || other.Dominates(q)) {
+								okDom = false
+							}
+						}
+					}
+					if okDom {
+						for _, l := range a.edgeLits(pred, si) {
+							out = append(out, Lit{l.Atom, !l.Pol})
+						}
+					}
+					continue
+				}
+				out = append(out, a.lits(e, pol)...)
+			}
+		}
+	}
+	return out
+}
+
+func succIndexOf(p, s *ssa.BasicBlock) int {
+	for i, x := range p.Succs {
+		if x == s {
+			return i
+		}
+	}
+	return 0
 }
 
 // edgeLits returns the literals asserted by taking successor i of block d.
